@@ -1,5 +1,269 @@
+/-
+Helper lemmas for C05 (Props/C05.lean): one-step facts about `TxStore.step` while a write
+transaction is open, and the schedule inductions built on them.
+-/
 import AskarModel.Model.Session
 namespace Askar.Store
 namespace Lemmas
+
+variable (like : Bytes → Bytes → Bool) (page : Nat) (now : Int)
+
+/-! ### the plain store: reads do not change the database -/
+
+theorem step_read_db (s : Sess) (db : Db) (op : Op) (hr : op.isWrite = false) :
+    (step like page now s db op).1 = db := by
+  cases op with
+  | insert => simp [Op.isWrite] at hr
+  | replace => simp [Op.isWrite] at hr
+  | remove => simp [Op.isWrite] at hr
+  | removeAll => simp [Op.isWrite] at hr
+  | fetch => rfl
+  | count => rfl
+  | fetchAll k c f lim desc =>
+    show (match doFetchAll like db now s k c f lim desc with
+      | .ok es => (db, Out.entries es)
+      | .error e => (db, Out.err e)).1 = db
+    split <;> rfl
+  | scan k c f off lim desc =>
+    show (match doScan like page db now s k c f off lim desc with
+      | .ok ps => (db, Out.pages ps)
+      | .error e => (db, Out.err e)).1 = db
+    split <;> rfl
+
+/-! ### unfolding `run` -/
+
+theorem run_cons_fst (st : TxStore) (cl : Call) (cs : List Call) :
+    (TxStore.run like page now st (cl :: cs)).1
+      = (TxStore.run like page now (TxStore.step like page now st cl).1 cs).1 := rfl
+
+theorem run_cons_snd (st : TxStore) (cl : Call) (cs : List Call) :
+    (TxStore.run like page now st (cl :: cs)).2
+      = (TxStore.step like page now st cl).2 :: (TxStore.run like page now (TxStore.step like page now st cl).1 cs).2 := rfl
+
+theorem run_append_fst (st : TxStore) (cs ds : List Call) :
+    (TxStore.run like page now st (cs ++ ds)).1
+      = (TxStore.run like page now (TxStore.run like page now st cs).1 ds).1 := by
+  induction cs generalizing st with
+  | nil => rfl
+  | cons cl cs ih =>
+    rw [List.cons_append, run_cons_fst, run_cons_fst]
+    exact ih _
+
+theorem run_single_fst (st : TxStore) (cl : Call) :
+    (TxStore.run like page now st [cl]).1 = (TxStore.step like page now st cl).1 := rfl
+
+/-! ### ownership -/
+
+theorem ownedBy_iff (st : TxStore) (i : Nat) : st.ownedBy i = true ↔ ∃ c, st.wtxn = some (i, c) := by
+  unfold TxStore.ownedBy
+  cases h : st.wtxn with
+  | none => simp
+  | some p =>
+    obtain ⟨j, c⟩ := p
+    constructor
+    · intro e
+      have : i = j := by simpa using e
+      exact ⟨c, by rw [this]⟩
+    · rintro ⟨c', e⟩
+      have : j = i := by
+        have := congrArg (fun o => o.map Prod.fst) e
+        simpa using this
+      simp [this]
+
+/-! ### one step while session `i` owns the write lock -/
+
+/-- the owner's transactional statement runs on the working copy -/
+theorem step_owner (st : TxStore) (i : Nat) (c : Db) (h : st.wtxn = some (i, c)) (s : Sess) (op : Op) :
+    TxStore.step like page now st (.stmt i true s op)
+      = ({ st with wtxn := some (i, (step like page now s c op).1) }, (step like page now s c op).2) := by
+  simp [TxStore.step, TxStore.lockedByOther, TxStore.view, h]
+
+/-- any other statement leaves the whole transactional state as it was -/
+theorem step_other (st : TxStore) (i : Nat) (c : Db) (h : st.wtxn = some (i, c))
+    (j : Nat) (t : Bool) (s : Sess) (op : Op) (hj : t = false ∨ j ≠ i) :
+    (TxStore.step like page now st (.stmt j t s op)).1 = st := by
+  cases t with
+  | true =>
+    have hji : j ≠ i := by
+      rcases hj with h' | h'
+      · cases h'
+      · exact h'
+    simp [TxStore.step, TxStore.lockedByOther, h, hji]
+  | false =>
+    cases hw : op.isWrite with
+    | true => simp [TxStore.step, h, hw]
+    | false =>
+      have hdb := step_read_db like page now s st.db op hw
+      simp [TxStore.step, hw, hdb]
+
+theorem step_commit_other (st : TxStore) (i : Nat) (c : Db) (h : st.wtxn = some (i, c))
+    (j : Nat) (hj : i ≠ j) :
+    (TxStore.step like page now st (.commit j)).1 = st := by
+  have hji : j ≠ i := fun e => hj e.symm
+  simp [TxStore.step, h, hji]
+
+theorem step_rollback_other (st : TxStore) (i : Nat) (c : Db) (h : st.wtxn = some (i, c))
+    (j : Nat) (hj : i ≠ j) :
+    (TxStore.step like page now st (.rollback j)).1 = st := by
+  have hji : j ≠ i := fun e => hj e.symm
+  simp [TxStore.step, h, hji]
+
+/-! ### schedules -/
+
+theorem run_owned (st : TxStore) (i : Nat) (c : Db) (h : st.wtxn = some (i, c))
+    (cs : List Call) (hc : noEnd i cs = true) :
+    (TxStore.run like page now st cs).1.db = st.db ∧
+    ∃ c', (TxStore.run like page now st cs).1.wtxn = some (i, c') := by
+  induction cs generalizing st c with
+  | nil => exact ⟨rfl, c, h⟩
+  | cons cl cs ih =>
+    rw [run_cons_fst]
+    cases cl with
+    | stmt j t s op =>
+      have hc' : noEnd i cs = true := hc
+      by_cases hj : t = true ∧ j = i
+      · obtain ⟨rfl, rfl⟩ := hj
+        rw [step_owner like page now st j c h]
+        exact ih { st with wtxn := some (j, (step like page now s c op).1) } _ rfl hc'
+      · have hj' : t = false ∨ j ≠ i := by
+          cases t with
+          | false => exact Or.inl rfl
+          | true => exact Or.inr (fun e => hj ⟨rfl, e⟩)
+        rw [step_other like page now st i c h j t s op hj']
+        exact ih st c h hc'
+    | commit j =>
+      have hc2 : i ≠ j ∧ noEnd i cs = true := by simpa [noEnd] using hc
+      rw [step_commit_other like page now st i c h j hc2.1]
+      exact ih st c h hc2.2
+    | rollback j =>
+      have hc2 : i ≠ j ∧ noEnd i cs = true := by simpa [noEnd] using hc
+      rw [step_rollback_other like page now st i c h j hc2.1]
+      exact ih st c h hc2.2
+
+theorem txn_invisible_until_commit (st : TxStore) (i : Nat)
+    (h : st.ownedBy i = true) (cs : List Call) (hc : noEnd i cs = true) :
+    (TxStore.run like page now st cs).1.db = st.db ∧ (TxStore.run like page now st cs).1.ownedBy i = true := by
+  obtain ⟨c, hw⟩ := (ownedBy_iff st i).1 h
+  have := run_owned like page now st i c hw cs hc
+  exact ⟨this.1, (ownedBy_iff _ i).2 this.2⟩
+
+theorem rollback_discards (st : TxStore) (i : Nat)
+    (h : st.ownedBy i = true) (cs : List Call) (hc : noEnd i cs = true) :
+    (TxStore.run like page now st (cs ++ [.rollback i])).1.db = st.db ∧
+    (TxStore.run like page now st (cs ++ [.rollback i])).1.wtxn = none := by
+  obtain ⟨c, hw⟩ := (ownedBy_iff st i).1 h
+  obtain ⟨hdb, c', hw'⟩ := run_owned like page now st i c hw cs hc
+  rw [run_append_fst, run_single_fst]
+  constructor
+  · rw [← hdb]
+    simp [TxStore.step, hw']
+  · simp [TxStore.step, hw']
+
+theorem sess_eq_of (s' s : Sess) (h1 : s'.pid = s.pid) (h2 : s'.key = s.key) : s' = s := by
+  cases s'; cases s; simp at h1 h2; simp [h1, h2]
+
+theorem txn_sequential (st : TxStore) (i : Nat) (s : Sess) (c : Db)
+    (h : st.wtxn = some (i, c)) (cs : List Call) (hc : noEnd i cs = true) (ht : txnOf i s cs = true) :
+    outsOf i cs (TxStore.run like page now st cs).2 = (run like page now s c (opsOf i cs)).2 ∧
+    (TxStore.run like page now st cs).1.wtxn = some (i, (run like page now s c (opsOf i cs)).1) := by
+  induction cs generalizing st c with
+  | nil => exact ⟨rfl, h⟩
+  | cons cl cs ih =>
+    rw [run_cons_fst, run_cons_snd]
+    cases cl with
+    | stmt j t s' op =>
+      have hc' : noEnd i cs = true := hc
+      by_cases hij : i = j
+      · subst hij
+        have ht2 : (t = true ∧ s'.pid = s.pid ∧ s'.key = s.key) ∧ txnOf i s cs = true := by
+          simpa [txnOf, and_assoc] using ht
+        obtain ⟨⟨rfl, hp, hk⟩, ht'⟩ := ht2
+        have hs : s' = s := sess_eq_of s' s hp hk
+        subst hs
+        rw [step_owner like page now st i c h]
+        have := ih { st with wtxn := some (i, (step like page now s' c op).1) } _ rfl hc' ht'
+        have hops : opsOf i (Call.stmt i true s' op :: cs) = op :: opsOf i cs := by simp [opsOf]
+        have hrun1 : ∀ ops, (run like page now s' c (op :: ops)).1
+            = (run like page now s' (step like page now s' c op).1 ops).1 := fun _ => rfl
+        have hrun2 : ∀ ops, (run like page now s' c (op :: ops)).2
+            = (step like page now s' c op).2 :: (run like page now s' (step like page now s' c op).1 ops).2 := fun _ => rfl
+        rw [hops, hrun1, hrun2]
+        refine ⟨?_, this.2⟩
+        simp only [outsOf, beq_self_eq_true, if_true]
+        rw [this.1]
+      · have ht' : txnOf i s cs = true := by
+          simpa [txnOf, hij] using ht
+        have hj' : t = false ∨ j ≠ i := Or.inr (fun e => hij e.symm)
+        rw [step_other like page now st i c h j t s' op hj']
+        have hops : opsOf i (Call.stmt j t s' op :: cs) = opsOf i cs := by simp [opsOf, hij]
+        rw [hops]
+        refine ⟨?_, (ih st c h hc' ht').2⟩
+        simp only [outsOf]
+        rw [if_neg (by simpa using hij)]
+        exact (ih st c h hc' ht').1
+    | commit j =>
+      have hc2 : i ≠ j ∧ noEnd i cs = true := by simpa [noEnd] using hc
+      have ht' : txnOf i s cs = true := ht
+      rw [step_commit_other like page now st i c h j hc2.1]
+      exact ih st c h hc2.2 ht'
+    | rollback j =>
+      have hc2 : i ≠ j ∧ noEnd i cs = true := by simpa [noEnd] using hc
+      have ht' : txnOf i s cs = true := ht
+      rw [step_rollback_other like page now st i c h j hc2.1]
+      exact ih st c h hc2.2 ht'
+
+theorem commit_publishes_all (st : TxStore) (i : Nat) (s : Sess) (c : Db)
+    (h : st.wtxn = some (i, c)) (cs : List Call) (hc : noEnd i cs = true) (ht : txnOf i s cs = true) :
+    (TxStore.run like page now st (cs ++ [.commit i])).1.db = (run like page now s c (opsOf i cs)).1 ∧
+    (TxStore.run like page now st (cs ++ [.commit i])).1.wtxn = none := by
+  have hw := (txn_sequential like page now st i s c h cs hc ht).2
+  rw [run_append_fst, run_single_fst]
+  constructor <;> simp [TxStore.step, hw]
+
+/-! ### single calls -/
+
+theorem begin_takes_lock (st : TxStore) (i : Nat) (s : Sess) (op : Op)
+    (h : st.wtxn = none) :
+    (TxStore.step like page now st (.stmt i true s op)).1.wtxn = some (i, (step like page now s st.db op).1) ∧
+    (TxStore.step like page now st (.stmt i true s op)).2 = (step like page now s st.db op).2 ∧
+    (TxStore.step like page now st (.stmt i true s op)).1.db = st.db := by
+  simp [TxStore.step, TxStore.lockedByOther, TxStore.view, h]
+
+theorem plain_call_immediate (st : TxStore) (j : Nat) (s : Sess) (op : Op)
+    (h : st.wtxn = none) :
+    (TxStore.step like page now st (.stmt j false s op)).1.db = (step like page now s st.db op).1 ∧
+    (TxStore.step like page now st (.stmt j false s op)).2 = (step like page now s st.db op).2 ∧
+    ∀ e, e = Call.commit j ∨ e = Call.rollback j →
+      (TxStore.step like page now (TxStore.step like page now st (.stmt j false s op)).1 e).1.db = (step like page now s st.db op).1 := by
+  have hs : TxStore.step like page now st (.stmt j false s op)
+      = ({ st with db := (step like page now s st.db op).1 }, (step like page now s st.db op).2) := by
+    simp [TxStore.step, h]
+  rw [hs]
+  refine ⟨rfl, rfl, ?_⟩
+  rintro e (rfl | rfl) <;> simp [TxStore.step, h]
+
+theorem plain_read_sees_committed (st : TxStore) (j : Nat) (s : Sess) (op : Op)
+    (hr : op.isWrite = false) :
+    (TxStore.step like page now st (.stmt j false s op)).2 = (step like page now s st.db op).2 ∧
+    (TxStore.step like page now st (.stmt j false s op)).1.wtxn = st.wtxn := by
+  simp [TxStore.step, hr]
+
+theorem blocked_call_no_effect (st : TxStore) (j : Nat) (t : Bool) (s : Sess) (op : Op)
+    (h : st.lockedByOther j = true) (hw : t = true ∨ op.isWrite = true) :
+    TxStore.step like page now st (.stmt j t s op) = (st, .err .backend) := by
+  cases t with
+  | true => simp [TxStore.step, h]
+  | false =>
+    have hw' : op.isWrite = true := by
+      rcases hw with h' | h'
+      · cases h'
+      · exact h'
+    have hs : st.wtxn.isSome = true := by
+      unfold TxStore.lockedByOther at h
+      cases hx : st.wtxn with
+      | none => simp [hx] at h
+      | some p => rfl
+    simp [TxStore.step, hw', hs]
+
 end Lemmas
 end Askar.Store
